@@ -73,6 +73,7 @@ type coreSim struct {
 	advSet    [2]bool
 	rcvWndMax [2]uint32 // largest receive window configured so far
 	shrunk    [2]bool   // the application lowered its receive window below its backlog (profile shrinkWnd)
+	txTime    [2]uint32 // ms the output callback of endpoint e blocks per datagram (a slow link; 0: instantaneous)
 }
 
 func (s *coreSim) logf(format string, a ...any) {
@@ -91,6 +92,9 @@ func newCoreSim(cfg coreCfg, lg *vlog, rep *vreport) *coreSim {
 			d := make([]byte, size)
 			copy(d, buf[:size])
 			s.cur = append(s.cur, d)
+			if s.txTime[e] > 0 { // the write blocks: time passes INSIDE the call (model: flush_t / input_t / update_t)
+				s.setNow(s.now + s.txTime[e])
+			}
 		})
 		s.k[e] = k
 	}
@@ -271,14 +275,15 @@ func (s *coreSim) Input(e int, d []byte, regular, acknd bool) int {
 	in := append([]byte(nil), d...)
 	before := s.snapshot(e)
 	s.advTrack(e, d, regular)
+	t0 := s.now // the clock may advance inside the call (txTime)
 	p, why := s.guarded(func() { ret = s.k[e].Input(in, pt, acknd) })
 	if p {
-		s.logf("input %d %d %d %d %s = P\n", e, s.now, r, a, hx(d))
+		s.logf("input %d %d %d %d %s = P\n", e, t0, r, a, hx(d))
 		s.panicked("Input", why)
 		return -99
 	}
 	o := s.collect(e)
-	s.logf("input %d %d %d %d %s = %d %s\n", e, s.now, r, a, hx(d), ret, outsStr(o))
+	s.logf("input %d %d %d %d %s = %d %s\n", e, t0, r, a, hx(d), ret, outsStr(o))
 	s.tr("input %d %s = %d %s", e, s.normDgram(1-e, d), ret, s.normOuts(e, o))
 	s.state(e)
 	s.stats["input"]++
@@ -298,15 +303,16 @@ func (s *coreSim) Flush(e int, full bool) uint32 {
 	s.ops = append(s.ops, fmt.Sprintf("flush %d %d %d", e, s.now, ft))
 	var next uint32
 	before := s.snapshot(e)
+	t0 := s.now
 	p, why := s.guarded(func() { next = s.k[e].flush(ft) })
 	if p {
-		s.logf("flush %d %d %d = P\n", e, s.now, ft)
+		s.logf("flush %d %d %d = P\n", e, t0, ft)
 		s.panicked("flush", why)
 		return 0
 	}
 	o := s.collect(e)
-	s.logf("flush %d %d %d = %d %s\n", e, s.now, ft, next, outsStr(o))
-	s.tr("flush %d %d @%d = %d %s", e, ft, s.now-s.cfg.Clock, next, s.normOuts(e, o))
+	s.logf("flush %d %d %d = %d %s\n", e, t0, ft, next, outsStr(o))
+	s.tr("flush %d %d @%d = %d %s", e, ft, t0-s.cfg.Clock, next, s.normOuts(e, o))
 	s.state(e)
 	s.stats["flush"]++
 	s.monFlush(e, before, o, full)
@@ -317,15 +323,16 @@ func (s *coreSim) Flush(e int, full bool) uint32 {
 func (s *coreSim) Update(e int) {
 	s.ops = append(s.ops, fmt.Sprintf("update %d %d", e, s.now))
 	before := s.snapshot(e)
+	t0 := s.now
 	p, why := s.guarded(func() { s.k[e].Update() })
 	if p {
-		s.logf("update %d %d = P\n", e, s.now)
+		s.logf("update %d %d = P\n", e, t0)
 		s.panicked("Update", why)
 		return
 	}
 	o := s.collect(e)
-	s.logf("update %d %d = %s\n", e, s.now, outsStr(o))
-	s.tr("update %d @%d = %s", e, s.now-s.cfg.Clock, s.normOuts(e, o))
+	s.logf("update %d %d = %s\n", e, t0, outsStr(o))
+	s.tr("update %d @%d = %s", e, t0-s.cfg.Clock, s.normOuts(e, o))
 	s.state(e)
 	s.stats["update"]++
 	s.monFlush(e, before, o, true)
@@ -373,6 +380,14 @@ func (s *coreSim) NoDelay(e int, nd, iv, rs, nc int) {
 	}
 	s.logf("nodelay %d %d %d %d %d %d\n", e, s.now, nd, iv, rs, nc)
 	s.state(e)
+}
+
+// SetTx: from now on the output callback of endpoint e blocks ms milliseconds per datagram
+func (s *coreSim) SetTx(e int, ms uint32) {
+	s.ops = append(s.ops, fmt.Sprintf("tx %d %d %d", e, s.now, ms))
+	s.txTime[e] = ms
+	s.logf("tx %d %d %d\n", e, s.now, ms)
+	s.stats["tx"]++
 }
 
 func (s *coreSim) WndSize(e int, sw, rw int) {
